@@ -247,6 +247,10 @@ func runC16(ctx *Ctx) error {
 			if r.Intn(6) == 0 {
 				// a challenge may be any text: one that ends like a prompt, a comment or a list
 				c.Challenge += []string{">", "]", ";", " >", "|x", "$"}[r.Intn(6)]
+			} else if r.Intn(6) == 0 {
+				// ... or text with white space inside: the line ends at the carriage return only,
+				// so a line feed, a tab or blanks inside the challenge belong to it
+				c.Challenge += []string{"\n", "\t", "  ", "\v", "\n\n", " \n "}[r.Intn(6)] + r.StringFrom("0123456789", 1+r.Intn(4))
 			}
 		}
 		wire, s, xerr, hung := c16RunSession(c)
